@@ -541,6 +541,36 @@ fn pick_len(r: &mut Rng, mtu: usize) -> usize {
 }
 
 /// link stream: two well-behaved ends, `a` initiator, `b` responder.
+/// buffer size of a fetch by a well-behaved application: mostly large enough, in a fraction of the
+/// fetches smaller than (or exactly as large as) the message that is waiting (`len`, if known)
+fn pick_cap(r: &mut Rng, len: Option<usize>) -> usize {
+    let l = len.unwrap_or(1232);
+    match r.below(14) {
+        0 => 1,
+        1 => 16,
+        2 => 512,
+        3 => l.saturating_sub(1).max(1),
+        4 => l,
+        5 => 1232,
+        _ => 2048,
+    }
+}
+
+/// `fetch y` with a buffer chosen by `pick_cap`; `pend` = lengths of the messages accepted for
+/// sending at the other end and not yet fetched here
+fn fetch_var(g: &mut Gen, r: &mut Rng, y: &str, pend: &mut VecDeque<usize>) -> bool {
+    let cap = pick_cap(r, pend.front().copied());
+    if cap < pend.front().copied().unwrap_or(0) {
+        g.out.stat("link_fetch_truncating", 1);
+    }
+    if g.op(format!("fetch {} {}", y, cap)).starts_with("msg") {
+        pend.pop_front();
+        true
+    } else {
+        false
+    }
+}
+
 fn gen_link(r: &mut Rng, out: &mut Out, thorough: bool) -> (String, Vec<(String, String)>, bool) {
     let gatts: [u16; 14] = [0, 23, 24, 25, 27, 32, 50, 64, 100, 128, 185, 247, 300, 512];
     let ga = *r.pick(&gatts);
@@ -548,10 +578,15 @@ fn gen_link(r: &mut Rng, out: &mut Out, thorough: bool) -> (String, Vec<(String,
     let relaxed_b = r.chance(1, 2);
     let kind = format!("l 1 0 {} {} 0 {}", ga, gb, relaxed_b as u8);
     let mut g = Gen { w: World::new(&kind), ops: Vec::new(), out, n_ok: 0, n_err: 0, n_msg: 0, n_tx: 0 };
+    // lengths of the messages accepted for sending at a / at b and not yet fetched at the other end
+    let mut pend_ab: VecDeque<usize> = VecDeque::new();
+    let mut pend_ba: VecDeque<usize> = VecDeque::new();
     // handshake, sometimes with sends queued before it completes and out-of-order polls
     if r.chance(1, 3) {
         let m = { let n = r.range(1, 40) as usize; r.bytes(n) };
-        g.op(format!("send a {}", hex(&m)));
+        if g.op(format!("send a {}", hex(&m))) == "ok" {
+            pend_ab.push_back(m.len());
+        }
     }
     if r.chance(1, 4) {
         g.op("poll b".into());
@@ -604,7 +639,9 @@ fn gen_link(r: &mut Rng, out: &mut Out, thorough: bool) -> (String, Vec<(String,
                 let x = if idx == 0 { "a" } else { "b" };
                 let len = if profile == 5 { r.range(1, 12) as usize } else { pick_len(r, mtu.max(8)) };
                 let m = r.bytes(len);
-                g.op(format!("send {} {}", x, hex(&m)));
+                if g.op(format!("send {} {}", x, hex(&m))) == "ok" {
+                    if idx == 0 { pend_ab.push_back(len) } else { pend_ba.push_back(len) }
+                }
             }
             2 => {
                 g.op("poll a".into());
@@ -619,10 +656,10 @@ fn gen_link(r: &mut Rng, out: &mut Out, thorough: bool) -> (String, Vec<(String,
                 g.op("dlv b".into());
             }
             6 => {
-                g.op("fetch a 2048".into());
+                fetch_var(&mut g, r, "a", &mut pend_ba);
             }
             7 => {
-                g.op("fetch b 2048".into());
+                fetch_var(&mut g, r, "b", &mut pend_ab);
             }
             _ => {
                 g.op(format!("tick {}", *r.pick(&[1u64, 2, 7, 14, 15, 16, 20])));
@@ -636,9 +673,12 @@ fn gen_link(r: &mut Rng, out: &mut Out, thorough: bool) -> (String, Vec<(String,
     // drain: a fair tail so that most submitted messages do arrive
     if r.chance(3, 4) {
         for _ in 0..r.range(4, 60) {
-            for op in ["poll a", "dlv b", "fetch b 2048", "poll b", "dlv a", "fetch a 2048"] {
-                g.op(op.to_string());
-            }
+            g.op("poll a".into());
+            g.op("dlv b".into());
+            fetch_var(&mut g, r, "b", &mut pend_ab);
+            g.op("poll b".into());
+            g.op("dlv a".into());
+            fetch_var(&mut g, r, "a", &mut pend_ba);
             if r.chance(1, 6) {
                 g.op("tick 15".into());
             }
@@ -647,6 +687,129 @@ fn gen_link(r: &mut Rng, out: &mut Out, thorough: bool) -> (String, Vec<(String,
     if g.n_tx >= 520 {
         g.out.stat("link_cases_with_520_or_more_segments", 1);
     }
+    let nt = g.n_msg >= 1 && g.n_tx >= 4;
+    (kind, g.ops, nt)
+}
+
+// `n` polls of `x`, an SDU is queued whenever none is in progress; returns the segments emitted
+fn pump(g: &mut Gen, r: &mut Rng, x: &str, n: usize, mtu: usize, tiny: bool) -> usize {
+    let mut sent = 0;
+    for _ in 0..n {
+        let idle = if x == "a" { g.w.a.sdu_len() == 0 } else { g.w.b.sdu_len() == 0 };
+        if idle {
+            let len = if tiny { r.range(1, (mtu as u64).saturating_sub(6).max(1)) as usize } else { r.range(mtu as u64, 1232) as usize };
+            let m = r.bytes(len);
+            g.op(format!("send {} {}", x, hex(&m)));
+        }
+        if g.op(format!("poll {}", x)).starts_with("tx") {
+            sent += 1;
+        } else {
+            break;
+        }
+    }
+    sent
+}
+fn drain_to(g: &mut Gen, y: &str, n: usize) {
+    for _ in 0..n {
+        if g.op(format!("dlv {}", y)) == "empty" {
+            break;
+        }
+    }
+}
+fn fetch_all(g: &mut Gen, y: &str) {
+    for _ in 0..64 {
+        if !g.op(format!("fetch {} 2048", y)).starts_with("msg") {
+            break;
+        }
+    }
+}
+// everything in flight delivered and fetched, `x`'s segments acknowledged (`rounds` = 1), and
+// the peer's too (`rounds` = 2)
+fn settle(g: &mut Gen, x: &str, y: &str, rounds: usize) {
+    for k in 0..rounds {
+        drain_to(g, y, 400);
+        fetch_all(g, y);
+        g.op("tick 15".into());
+        g.op(format!("poll {}", y));
+        drain_to(g, x, 400);
+        fetch_all(g, x);
+        if k + 1 < rounds {
+            g.op("tick 15".into());
+            g.op(format!("poll {}", x));
+        }
+    }
+}
+
+/// travel stream (kind `l`, scripted with random parameters): two well-behaved ends exchange a
+/// long series of medium and large messages (mostly one direction) and the receiving application
+/// fetches each of them with a buffer from {1, 16, 512, len-1, len, 1232, 2048} - so a fraction of
+/// the fetches TRUNCATE (`RecvWindow::fetch_message` hands out the first bytes and drains the rest
+/// of the SDU from the ring buffer) while the start index of the 3166-byte receive ring travels
+/// around the storage several times per case; messages that follow a truncated one must arrive
+/// intact.
+fn gen_travel(r: &mut Rng, out: &mut Out, thorough: bool) -> (String, Vec<(String, String)>, bool) {
+    let ga = *r.pick(&[100u16, 128, 185, 247, 247, 300, 512]);
+    let relaxed_b = r.chance(1, 2);
+    let kind = format!("l 1 0 {} {} 0 {}", ga, ga, relaxed_b as u8);
+    let mut g = Gen { w: World::new(&kind), ops: Vec::new(), out, n_ok: 0, n_err: 0, n_msg: 0, n_tx: 0 };
+    g.op("poll a".into());
+    if r.chance(1, 3) {
+        g.op(format!("hsw b {}", *r.pick(&[3u64, 4, 5, 7])));
+    }
+    g.op("dlv b".into());
+    g.op("poll b".into());
+    g.op("dlv a".into());
+    let mtu = g.w.a.fields()[0] as usize;
+    let msgs = if thorough { r.range(30, 90) } else { r.range(14, 30) };
+    let mut pend_ab: VecDeque<usize> = VecDeque::new();
+    let mut pend_ba: VecDeque<usize> = VecDeque::new();
+    let mut bytes_ab = 0usize;
+    for _ in 0..msgs {
+        if g.w.a.dead || g.w.b.dead {
+            break;
+        }
+        let (x, y) = if r.chance(5, 6) { ("a", "b") } else { ("b", "a") };
+        let len = match r.below(8) {
+            0 => 1232,
+            1 => r.range(1000, 1232) as usize,
+            2 => r.range(1, (mtu as u64).max(2)) as usize,
+            3 => r.range(1, 40) as usize,
+            _ => r.range(200, 1232) as usize,
+        };
+        let m = r.bytes(len);
+        if g.op(format!("send {} {}", x, hex(&m))) != "ok" {
+            continue;
+        }
+        if x == "a" { pend_ab.push_back(len); bytes_ab += len + 2 } else { pend_ba.push_back(len) }
+        // the sender pumps the SDU out; when its window is full the acknowledgements are let through
+        for _ in 0..120 {
+            let busy = if x == "a" { g.w.a.sdu_len() > 0 } else { g.w.b.sdu_len() > 0 };
+            if !busy {
+                break;
+            }
+            if !g.op(format!("poll {}", x)).starts_with("tx") {
+                drain_to(&mut g, y, 64);
+                g.op("tick 15".into());
+                g.op(format!("poll {}", y));
+                drain_to(&mut g, x, 64);
+            } else if r.chance(1, 3) {
+                g.op(format!("dlv {}", y));
+            }
+        }
+        drain_to(&mut g, y, 64);
+        // the application fetches, sometimes into a buffer smaller than the message
+        let (py, px) = if y == "b" { (&mut pend_ab, &mut pend_ba) } else { (&mut pend_ba, &mut pend_ab) };
+        for _ in 0..4 {
+            if !fetch_var(&mut g, r, y, py) {
+                break;
+            }
+        }
+        g.op("tick 15".into());
+        g.op(format!("poll {}", y));
+        drain_to(&mut g, x, 64);
+        fetch_var(&mut g, r, x, px);
+    }
+    g.out.stat("travel_ring_rounds_x10", (bytes_ab * 10 / 3166) as u64);
     let nt = g.n_msg >= 1 && g.n_tx >= 4;
     (kind, g.ops, nt)
 }
@@ -679,54 +842,6 @@ fn gen_wrap(r: &mut Rng, out: &mut Out, thorough: bool) -> (String, Vec<(String,
         return (kind, g.ops, false);
     }
     let alive = |g: &Gen| !g.w.a.dead && !g.w.b.dead;
-    // `n` polls of `x`, an SDU is queued whenever none is in progress; returns the segments emitted
-    fn pump(g: &mut Gen, r: &mut Rng, x: &str, n: usize, mtu: usize, tiny: bool) -> usize {
-        let mut sent = 0;
-        for _ in 0..n {
-            let idle = if x == "a" { g.w.a.sdu_len() == 0 } else { g.w.b.sdu_len() == 0 };
-            if idle {
-                let len = if tiny { r.range(1, (mtu as u64).saturating_sub(6).max(1)) as usize } else { r.range(mtu as u64, 1232) as usize };
-                let m = r.bytes(len);
-                g.op(format!("send {} {}", x, hex(&m)));
-            }
-            if g.op(format!("poll {}", x)).starts_with("tx") {
-                sent += 1;
-            } else {
-                break;
-            }
-        }
-        sent
-    }
-    fn drain_to(g: &mut Gen, y: &str, n: usize) {
-        for _ in 0..n {
-            if g.op(format!("dlv {}", y)) == "empty" {
-                break;
-            }
-        }
-    }
-    fn fetch_all(g: &mut Gen, y: &str) {
-        for _ in 0..64 {
-            if !g.op(format!("fetch {} 2048", y)).starts_with("msg") {
-                break;
-            }
-        }
-    }
-    // everything in flight delivered and fetched, `x`'s segments acknowledged (`rounds` = 1), and
-    // the peer's too (`rounds` = 2)
-    fn settle(g: &mut Gen, x: &str, y: &str, rounds: usize) {
-        for k in 0..rounds {
-            drain_to(g, y, 400);
-            fetch_all(g, y);
-            g.op("tick 15".into());
-            g.op(format!("poll {}", y));
-            drain_to(g, x, 400);
-            fetch_all(g, x);
-            if k + 1 < rounds {
-                g.op("tick 15".into());
-                g.op(format!("poll {}", x));
-            }
-        }
-    }
     let wraps = if thorough { r.range(3, 8) } else { r.range(2, 3) };
     let mut hunted = 0usize;
     for _ in 0..wraps {
@@ -816,7 +931,7 @@ pub fn gen(a: &Args) -> String {
     }
     let mut r = Rng::new(a.seed);
     let mut out = Out::default();
-    out.buf.push_str("#rule kind h: one real Btp end (responder or initiator, strict/relaxed MTU, various GATT MTUs) fed by a generated hostile peer: noise before the handshake, handshake requests/responses with boundary mtu/window values and mutations, then nearly valid data/ack segments built from the end's real state (right/wrong sequence number, valid/stale/bogus acknowledgement, single- and multi-segment SDUs with right/wrong lengths and flags, window overrun, repeated handshakes), interleaved with send/poll/fetch/tick; kind r: the real RingBuf<N> (N in 1..3166) driven directly with pushes (0..2N+3 bytes, overflow), pops, push_byte/pop_byte/clear in four fill profiles; kind l: two real Btp ends joined by FIFO queues under a random schedule of send/poll/deliver/fetch/tick with message lengths 0..1233 around the segment size, six scheduler profiles incl. long runs (sequence wrap) and slow applications (withheld acks, ack timers), plus (every 50th case) the scripted wrap profile: the sender is fast-forwarded to j segments before the 255->0 wrap-around of its sequence number, sends on across the wrap while acknowledgements lag by 1..window-1 segments (a partial acknowledgement from before the wrap arrives after a segment from beyond it), then fills its whole window while the peer sends no acknowledgement (not polled / application not fetching), several wraps per case, windows 3..79; non-trivial = (h) at least one segment accepted and one refused, (l) at least one message fetched and four segments sent, (r) at least one pop handed out bytes; distinct = by operation list\n");
+    out.buf.push_str("#rule kind h: one real Btp end (responder or initiator, strict/relaxed MTU, various GATT MTUs) fed by a generated hostile peer: noise before the handshake, handshake requests/responses with boundary mtu/window values and mutations, then nearly valid data/ack segments built from the end's real state (right/wrong sequence number, valid/stale/bogus acknowledgement, single- and multi-segment SDUs with right/wrong lengths and flags, window overrun, repeated handshakes), interleaved with send/poll/fetch/tick; kind r: the real RingBuf<N> (N in 1..3166) driven directly with pushes (0..2N+3 bytes, overflow), pops, push_byte/pop_byte/clear in four fill profiles; kind l: two real Btp ends joined by FIFO queues under a random schedule of send/poll/deliver/fetch/tick with message lengths 0..1233 around the segment size, six scheduler profiles incl. long runs (sequence wrap) and slow applications (withheld acks, ack timers), plus (every 50th case) the scripted wrap profile: the sender is fast-forwarded to j segments before the 255->0 wrap-around of its sequence number, sends on across the wrap while acknowledgements lag by 1..window-1 segments (a partial acknowledgement from before the wrap arrives after a segment from beyond it), then fills its whole window while the peer sends no acknowledgement (not polled / application not fetching), several wraps per case, windows 3..79; in all link profiles the application fetches with a buffer from {1, 16, 512, len-1, len, 1232, 2048} (6 of 14 fetches not 2048: truncating fetches), and (every 50th case) the scripted travel profile: 14..30 medium/large messages in a row, each fetched with such a buffer, so that the start index of the 3166-byte receive ring travels around the storage several times per case; non-trivial = (h) at least one segment accepted and one refused, (l) at least one message fetched and four segments sent, (r) at least one pop handed out bytes; distinct = by operation list\n");
     let n_cases = if a.thorough { 9000 } else { 3000 };
     for id in 0..n_cases {
         let mut cr = r.fork();
@@ -844,6 +959,10 @@ pub fn gen(a: &Args) -> String {
             }
             out.stat(&format!("ring_n_{}", cap), 1);
             (kind, ops, popped >= 1)
+        } else if id % 50 == 17 {
+            out.stat("kind_l", 1);
+            out.stat("kind_l_travel", 1);
+            gen_travel(&mut cr, &mut out, a.thorough)
         } else if id % 50 == 7 {
             out.stat("kind_l", 1);
             out.stat("kind_l_wrap", 1);
